@@ -1,6 +1,7 @@
 package wire
 
 import (
+	"context"
 	"log/slog"
 
 	"github.com/jackc/pgx/v5/pgtype"
@@ -323,4 +324,47 @@ func VerifH09m() {
 		vAssert("mixed-row-is-datarow", msgs[r].typ == 'D')
 		vAssert("mixed-row-body", vEqBytes(msgs[r].body, want[r]))
 	}
+}
+
+// ---------------------------------------------------------------------------
+// H09t — a connection's values are encoded with ITS type map (C09, C15): the
+// type map handed out through TypeMap(ctx) is the connection's own to
+// customise. A first connection registers a type of its own on it (in its
+// session middleware) and ends; a second, ordinary connection on the same
+// server then finds its map as a server that serves it alone would have built
+// it: the first connection's type is not there, and its row is delivered.
+// ---------------------------------------------------------------------------
+func VerifH09t() {
+	custom := uint32(100000 + vChoose(3))
+	var foundLater, registered bool
+	mw := SessionMiddleware(func(ctx context.Context) (context.Context, error) {
+		if RemoteAddress(ctx).(vAddr).id == 0 {
+			TypeMap(ctx).RegisterType(&pgtype.Type{Name: "verif_type", OID: custom, Codec: pgtype.TextCodec{}})
+			_, registered = TypeMap(ctx).TypeForOID(custom)
+		}
+		return ctx, nil
+	})
+	parse := func(ctx context.Context, query string) (PreparedStatements, error) {
+		fn := func(ctx context.Context, dw DataWriter, params []Parameter) error {
+			if RemoteAddress(ctx).(vAddr).id == 1 {
+				_, foundLater = TypeMap(ctx).TypeForOID(custom)
+			}
+			if err := dw.Row([]any{"v"}); err != nil {
+				return err
+			}
+			return dw.Complete("T")
+		}
+		return Prepared(NewStatement(fn, WithColumns(vTextColumns(1)))), nil
+	}
+	srv, err := NewServer(parse, MessageBufferSize(64), mw)
+	vAssert("newserver-ok", err == nil)
+	traffic := vCat(vStartup(vKV([]byte("user"), []byte("u"))), vMsgBytes('Q', vCStr([]byte("q"))), vMsgBytes('X', nil))
+	c1, c2 := vNewConn(traffic), vNewConn(traffic)
+	c2.id = 1
+	srv.serve(context.Background(), c1) //nolint
+	srv.serve(context.Background(), c2) //nolint
+	vAssert("the-first-connection-sees-its-own-registration", registered)
+	vAssert("a-later-connection-does-not-inherit-an-earlier-one's-types", !foundLater)
+	vAssert("both-rows-delivered", vCount(vTypes(c1.out), 'D') == 1 && vCount(vTypes(c2.out), 'D') == 1 && vWireOK(c2.out))
+	vReach("type-registered-by-an-earlier-connection")
 }
